@@ -123,3 +123,18 @@ package session
 //@   ensures  [fresh] fresh(all)
 //@   ensures  [wf]    wfsession(s)
 //@   modifies held[(dir == 0 ? s.Incoming : s.Outgoing).mutex]
+//
+//@ func NewIDCounterWithNext(next packet.ID) (c *IDCounter)
+//@   ensures c != nil && fresh(c) && c.next == next && held[c.mutex] == 0
+//@   modifies nothing
+//@ func NewIDCounter() (c *IDCounter)
+//@   ensures c != nil && fresh(c) && c.next == 1 && held[c.mutex] == 0
+//@   modifies nothing
+//@ func NewMemorySession() (s *MemorySession)
+//@   ensures [fresh] s != nil && fresh(s) && s.Counter != nil && fresh(s.Counter) && s.Counter.next == 1
+//@   ensures [stores] s.Incoming != nil && s.Outgoing != nil && s.Incoming != s.Outgoing && s.Incoming.packets != nil && s.Outgoing.packets != nil
+//@   ensures [distinct-maps] s.Incoming.packets != s.Outgoing.packets
+//@   ensures [unlocked] held[s.Incoming.mutex] == 0 && held[s.Outgoing.mutex] == 0
+//@   ensures [wf] wfsession(s)
+//@   ensures [empty] forall k packet.ID {s.Incoming.packets[k]} :: !has(s.Incoming.packets, k) && !has(s.Outgoing.packets, k)
+//@   modifies nothing
